@@ -26,13 +26,15 @@ import Refine.Gen.UgridFlavours
   * the serial WRITER sweeps `faceid = min..max` and emits the boundary faces of that id: a stable sort by tag;
     the parallel writer emits in owner order (rank 0 first), unsorted;
   * the serial READER checks every `fread` (short read → `REF_FAILURE`), skips a section whose count is ≤ 0, refuses a
-    negative `nnode` (`ref_malloc` of a negative size), and relies on `ref_adj_add` for the node indices: index 0 (and
-    below) is `REF_INVALID`, an index above `nnode` is NOT checked (`Cfg.checkIndex` adds the check);
+    negative `nnode` (`ref_malloc` of a negative size), and since /repo commit 6682479 refuses a node index outside
+    `1..nnode` (`REF_INVALID`; `Cfg.checkIndex`, `ugridCfg`); before that commit (`ugridCfgLegacy`) only `ref_adj_add`
+    looked at the indices: index ≤ 0 `REF_INVALID`, an index above `nnode` accepted;
   * the PARALLEL reader seeks to the offsets generated into `Refine.Gen.UgridOffsets`, reads `chunk` cells at a time,
     sends every cell to `ref_part_implicit` of its first node and then to every part that owns one of its nodes
     (`ref_migrate_shufflin_cell`); `ref_cell_add_many_global` drops a cell whose node set is already stored.
-    Nothing compares an index with `nnode`: outside `1..nnode` the C indexes `elements_to_send[]` out of bounds
-    (or divides by zero when `nnode = 0`) — the model reports `Status.undefined` there.
+    Since 6682479 every node entry of a chunk is tested against `[0, nnode)` (`REF_INVALID`) before it is routed;
+    before (`ugridCfgLegacy`) nothing compared an index with `nnode`: outside `1..nnode` the C indexed
+    `elements_to_send[]` out of bounds (or divided by zero when `nnode = 0`) — `Status.undefined` in the legacy model.
 
   Core-only imports: linked into `refdrv`.
 -/
@@ -223,10 +225,12 @@ def rows (per : Nat) : Nat → List Int → List (List Int)
   | n + 1, xs => xs.take per :: rows per n (xs.drop per)
 
 /-- one connectivity row → the `size_per` integers `ref_cell_add` stores, or its error.
-    `nodes[node] = c2n[..] - 1` overflows for `INT_MIN`; `ref_adj_add` of the nodes in order; the tag slot holds
-    `REF_EMPTY` until the tag block is read. -/
+    Since 6682479 (`cfg.checkIndex`): `c2n[..] < 1 || nnode < c2n[..]` on the 1-based value → `REF_INVALID`, before the
+    decrement.  Before it (`ugridCfgLegacy`): `nodes[node] = c2n[..] - 1` overflowed for `INT_MIN` and only `ref_adj_add`
+    looked at the nodes.  Then `ref_adj_add` of the nodes in order; the tag slot holds `REF_EMPTY` until the tag block
+    is read. -/
 def cellOfRow (cfg : Cfg) (k : Kind) (nnode : Int) (raw : List Int) : Except Status (List Int) :=
-  if raw.any (fun x => decide (x = -(2 ^ 31 : Int))) then .error .undefined else
+  if ¬ cfg.checkIndex ∧ raw.any (fun x => decide (x = -(2 ^ 31 : Int))) then .error .undefined else
   if cfg.checkIndex ∧ raw.any (fun x => decide (x < 1 ∨ nnode < x)) then .error .invalid else
   match adjAddAll cfg (raw.map (· - 1)) with
   | .error e => .error e
@@ -313,11 +317,12 @@ def decodeUgridChunked (cfg : Cfg) (maxChunk : Nat) (fl : Flavor) (bs : Bytes) :
 def decodeUgridWith (cfg : Cfg) (fl : Flavor) (bs : Bytes) : Except Status UMesh :=
   decodeUgridChunked cfg UgridOffsets.import_chunk_c2n fl bs
 
-/-- the reader as it is in /repo today: no comparison of a node index with `nnode` -/
-def ugridCfg : Cfg := Cfg.faithful
+/-- the readers as they were before /repo commit 6682479: no comparison of a node index with `nnode` -/
+def ugridCfgLegacy : Cfg := Cfg.faithful
 
-/-- the reader with `1 ≤ index ≤ nnode` required per connectivity entry (the maintainer-style repair) -/
-def ugridCfgFixed : Cfg := { Cfg.faithful with checkIndex := true }
+/-- **model selection**: the readers as they are in /repo today (since 6682479): `1 ≤ index ≤ nnode` required per
+    connectivity entry, serial and parallel -/
+def ugridCfg : Cfg := { Cfg.faithful with checkIndex := true }
 
 def decodeUgrid (fl : Flavor) (bs : Bytes) : Except Status UMesh := decodeUgridWith ugridCfg fl bs
 
@@ -417,9 +422,14 @@ def implicitPart (nnode : Int) (np : Nat) (g : Int) : Option Nat :=
     let p := PartMacros.ref_part_implicit nnode np g
     if 0 ≤ p ∧ p < (np : Int) then some p.toNat else none
 
+/-- every node entry of a row is a node: `0 ≤ value < nnode` (0-based) -/
+def partIndexOk (k : Kind) (nnode : Int) (c : List Int) : Bool :=
+  (c.take k.nodePer).all fun g => decide (0 ≤ g ∧ g < nnode)
+
 /-- the `while (ncell_read < ncell)` loop of ref_part_bin_ugrid_cell on rank 0: the cells in file order.
-    `fuel` bounds the passes. -/
-def partCellLoop (fl : Flavor) (bs : Bytes) (k : Kind) (connOff faceOff : Int) (chunk : Nat) :
+    Since 6682479 (`cfg.checkIndex`) every node entry of every row of the chunk just read is tested
+    `< 0 || nnode <= value` → `REF_INVALID`, before `ref_part_implicit` is evaluated.  `fuel` bounds the passes. -/
+def partCellLoop (cfg : Cfg) (fl : Flavor) (bs : Bytes) (k : Kind) (nnode : Int) (connOff faceOff : Int) (chunk : Nat) :
     Nat → Nat → Nat → Except Status (List (List Int))
   | 0, _, _ => .ok []
   | fuel + 1, ncell, ncellRead =>
@@ -428,13 +438,10 @@ def partCellLoop (fl : Flavor) (bs : Bytes) (k : Kind) (connOff faceOff : Int) (
     match packCell fl bs k connOff faceOff sectionSize ncellRead with
     | .error e => .error e
     | .ok cs =>
-    match partCellLoop fl bs k connOff faceOff chunk fuel ncell (ncellRead + sectionSize) with
+    if cfg.checkIndex ∧ cs.all (partIndexOk k nnode) = false then .error .invalid else
+    match partCellLoop cfg fl bs k nnode connOff faceOff chunk fuel ncell (ncellRead + sectionSize) with
     | .error e => .error e
     | .ok cs' => .ok (cs ++ cs')
-
-/-- every node index must be a node (nothing in the C checks it; outside, `dest[]`/`sent_part[]` are garbage) -/
-def partIndexOk (k : Kind) (nnode : Int) (c : List Int) : Bool :=
-  (c.take k.nodePer).all fun g => decide (0 ≤ g ∧ g < nnode)
 
 def insertInt (x : Int) : List Int → List Int
   | [] => [x]
@@ -460,8 +467,8 @@ structure PartMesh where
   deriving DecidableEq, Repr
 
 /-- one cell section of ref_part_bin_ugrid: skipped unless `0 < ncell`; `chunk` as the C computes it unless given -/
-def partSection (fl : Flavor) (bs : Bytes) (np : Nat) (chunkOverride : Option Nat) (hdr : List Int) (k : Kind) :
-    Except Status (List (List Int)) :=
+def partSection (cfg : Cfg) (fl : Flavor) (bs : Bytes) (np : Nat) (chunkOverride : Option Nat) (hdr : List Int)
+    (k : Kind) : Except Status (List (List Int)) :=
   let ncell := hdr.getD k.hdrIndex 0
   let nnode := hdr.getD 0 0
   if ncell ≤ 0 then .ok [] else
@@ -472,21 +479,23 @@ def partSection (fl : Flavor) (bs : Bytes) (np : Nat) (chunkOverride : Option Na
   -- `ref_malloc(sent_c2n, size_per * chunk, REF_GLOB)`: the product is formed in `int`; above the allocator cap the
   -- `malloc` returns NULL (`REF_NULL`) before anything is read
   if (k.sizePer : Int) * chunk ≥ 2 ^ 31 then .error .undefined else
-  if ugridCfg.allocCap < 8 * k.sizePer * chunk then .error .null else
-  match partCellLoop fl bs k co fo chunk ncell.toNat ncell.toNat 0 with
+  if cfg.allocCap < 8 * k.sizePer * chunk then .error .null else
+  match partCellLoop cfg fl bs k nnode co fo chunk ncell.toNat ncell.toNat 0 with
   | .error e => .error e
   | .ok cs =>
+    -- without the index check (legacy) an entry outside `[0, nnode)` makes `dest[]` / `sent_part[]` garbage (or the
+    -- macro divide by zero): no status.  With the check this guard only refuses `np = 0`.
     if cs.all (partIndexOk k nnode) ∧ (implicitPart nnode np 0).isSome then .ok (dedupCells k cs [])
     else .error .undefined
 
-def partSections (fl : Flavor) (bs : Bytes) (np : Nat) (chunkOverride : Option Nat) (hdr : List Int) :
+def partSections (cfg : Cfg) (fl : Flavor) (bs : Bytes) (np : Nat) (chunkOverride : Option Nat) (hdr : List Int) :
     List Kind → Except Status (List (List (List Int)))
   | [] => .ok []
   | k :: ks =>
-    match partSection fl bs np chunkOverride hdr k with
+    match partSection cfg fl bs np chunkOverride hdr k with
     | .error e => .error e
     | .ok cs =>
-    match partSections fl bs np chunkOverride hdr ks with
+    match partSections cfg fl bs np chunkOverride hdr ks with
     | .error e => .error e
     | .ok css => .ok (cs :: css)
 
@@ -511,8 +520,9 @@ def partCountHazard (np : Nat) (hdr : List Int) : Bool :=
     let ncell := hdr.getD k.hdrIndex 0
     decide (0 < ncell ∧ (k.sizePer : Int) * (UgridOffsets.part_chunk wrap32 ncell np) ≥ 2 ^ 31)
 
-/-- `ref_part_bin_ugrid` on `np` ranks -/
-def partRead (fl : Flavor) (np : Nat) (chunkOverride : Option Nat) (bs : Bytes) : Except Status PartMesh :=
+/-- `ref_part_bin_ugrid` on `np` ranks, reader variant `cfg` -/
+def partReadWith (cfg : Cfg) (fl : Flavor) (np : Nat) (chunkOverride : Option Nat) (bs : Bytes) :
+    Except Status PartMesh :=
   match rdHeaderPart fl bs with
   | .error e => .error e
   | .ok (hdr, s) =>
@@ -522,9 +532,13 @@ def partRead (fl : Flavor) (np : Nat) (chunkOverride : Option Nat) (bs : Bytes) 
   match rdVerts fl nnode.toNat s with
   | .error e => .error e
   | .ok (nodes, _) =>
-  match partSections fl bs np chunkOverride hdr Kind.all with
+  match partSections cfg fl bs np chunkOverride hdr Kind.all with
   | .error e => .error e
   | .ok cells => .ok { nnode := nnode, np := np, nodes := nodes, cells := cells }
+
+/-- the parallel reader as it is in /repo today -/
+def partRead (fl : Flavor) (np : Nat) (chunkOverride : Option Nat) (bs : Bytes) : Except Status PartMesh :=
+  partReadWith ugridCfg fl np chunkOverride bs
 
 /-- `ref_node_part` after the read: the implicit partition -/
 def PartMesh.partOf (pm : PartMesh) (g : Int) : Nat := (implicitPart pm.nnode pm.np g).getD 0
